@@ -59,6 +59,7 @@ class D(Driver):
             byside = {r[0]: r[2] for r in rec}
             if sides != [0, 1] or byside.get(0) != vl or byside.get(1) != vr:
                 vs.append(viol("resolver-args", digest(repr(rec)), {"rec": [[r[0], r[1], r[2].decode("latin1")[:20]] for r in rec]}))
+            vs.extend(stale_handles(rec))
         if tl.get(p) != e["content"] or tr.get(p) != e["content"]:
             vs.append(viol("winner", digest(json.dumps(obs, sort_keys=True)), obs))
         arts = {q: v for t in (tl, tr) for q, v in t.items() if _is_conflicted(q)}
@@ -71,7 +72,56 @@ class D(Driver):
         return obs, vs
 
 
+def stale_handles(rec):
+    """the bytes a handle yields must be the content that side holds when the resolver is called"""
+    out = []
+    for (side, path, data, actual, known, believed) in rec:
+        # stale = neither what the side holds now nor what it held when its events were last taken in (the engine cannot
+        # know about a change it has not been notified of yet)
+        if actual is not None and data != actual and (known is None or data != known):
+            # (the engine's recorded hash may itself be out of date - G13 - or be current while an older download is re-used)
+            out.append(viol("resolver-handle-stale", "%s:%s:%s" % ("LR"[side], digest(repr((data[:30], actual[:30]))),
+                                                                   "hash-current" if believed else "hash-outdated"),
+                            {"side": side, "engine_hash_is_current": believed, "handle_bytes": data.decode("latin1")[:40], "side_holds": actual.decode("latin1")[:40]}))
+    return out
+
+
+class DLate(Driver):
+    """a side is edited again while the first attempt to sync it is still unfinished: no fixed outcome table, but the
+    resolver must be handed the current contents, and the run must go quiet"""
+    prop = PROP
+
+    def make_world(self, job):
+        w = Driver.make_world(self, job)
+        w.hooks["key"] = lambda w: (len(w.resolver_calls), tuple(sorted((s, k, v) for s in (0, 1)
+                                                                      for k, v in w.intake_snapshot[s].items())))
+        w.seen_calls = 0
+        w.intake_snapshot = ({}, {})
+        orig_step = w.step
+
+        def step(which):
+            orig_step(which)
+            if which in ("IL", "IR"):       # part of the world's own transition (also during replays)
+                side = 0 if which == "IL" else 1
+                for k, o in w.provs[side]._mock_fs._objects.items():
+                    if k.startswith("/") and o.exists and o.contents is not None:
+                        w.intake_snapshot[side][o.oid] = o.contents
+        w.step = step
+        return w
+
+    def on_step(self, w, a, pre):
+        vs = []
+        for rec in w.resolver_calls[w.seen_calls:]:
+            vs.extend(stale_handles(rec))
+        w.seen_calls = len(w.resolver_calls)
+        return vs
+
+    def on_terminal(self, w):
+        return self.observe(w), []
+
+
 DRIVER = D()
+DRIVER_LATE = DLate()
 
 
 def jobs(tier):
@@ -96,10 +146,21 @@ def jobs(tier):
                                         "scripts": [[[shape, path, cl]], [[shape, path, cr]]], "opts": opts,
                                         "mode": {"k": None, "cap": 1200, "depth": 60,
                                                  "audit": 64 if tier == "quick" else 8}})
+    # a third operation re-edits one side while the conflict is still being worked on (all interleavings, engine may start early)
+    for cfg in cfgs:
+        for shape, path in (("create", "c"), ("write", "a")):
+            for b in ("local_drop", "remote_drop", "local_keep", "none"):
+                for late_side in (0, 1):
+                    sc = [[[shape, path, "L1"]], [[shape, path, "R1"]]]
+                    sc[late_side].append(["write", path, "LR"[late_side] + "2-later"])
+                    out.append({"prop": PROP, "cfg": cfg, "order": "asc", "base": "B1", "scripts": sc, "late": True,
+                                "opts": {"resolver": b}, "mode": {"k": None, "cap": 2500, "depth": 70, "audit": 0}})
     return out
 
 
 def run_job(job):
+    if job.get("late"):
+        return run_explore(DRIVER_LATE, job, liveness_fallback=True)
     out = run_explore(DRIVER, job, liveness_fallback=True)
     # schedule independence: the set of terminal observations of a job must be a singleton
     if len(out["outcomes"]) > 1 and not out["capped"]:
